@@ -3,7 +3,7 @@
    serialise (all rows). *)
 From Coq Require Import ZArith List Bool Lia Arith.
 From BNP Require Import Base.Prims Base.PrimsFacts Model.C03.
-From BNP Require Import Proofs.C03 Proofs.C03_int Proofs.C03_scatter Proofs.C03_fasta.
+From BNP Require Import Proofs.C03 Proofs.C03_int Proofs.C03_scatter Proofs.C03_fasta Proofs.C03_sam.
 Import ListNotations.
 Open Scope Z_scope.
 
@@ -17,10 +17,11 @@ Definition table_ok (f : fmt) (rows : list row) : Prop :=
   match f with
   | Delim => rect rows /\ cells_small rows
   | Vcf => rect rows /\ cells_small (map (vcf_shift 1) rows)
-  | VcfU => rows = []
+  | VcfU => rect rows /\ cells_small (map (vcf_shift 1) rows)      (* writable since /repo cb3a6ef *)
   | VcfL => True
   | DelimL => True
-  | Fasta w => 1 <= w /\ Forall (fun r => exists n s, r = [n; s] /\ fld_small n /\ fld_small s /\ print_fld s <> []) rows
+  | Sam => (exists n : nat, (2 <= n)%nat /\ Forall (fun r => length r = n) rows) /\ cells_small rows
+  | Fasta w => 1 <= w /\ Forall (fun r => exists n s, r = [n; s] /\ fld_small n /\ fld_small s) rows   (* empty sequences too *)
   | Fastq => Forall (fun r => exists n s q, r = [n; s; q] /\ fld_small n /\ fld_small s /\ fld_small q) rows
   end.
 
@@ -51,25 +52,40 @@ Proof. destruct r as [|c [|[s|p|l|q|t a b] rest]]; reflexivity. Qed.
 Theorem from_data_canonical f rows : rows <> [] -> table_ok f rows ->
   from_data f rows = (0, serialise f rows).
 Proof.
-  intros Hne Hok. destruct f as [| | | | |w|]; cbn [table_ok] in Hok.
+  intros Hne Hok. destruct f as [| | | | | |w|]; cbn [table_ok] in Hok.
   - (* Delim *) destruct Hok as [Hr Hs]. cbn [from_data]. rewrite delim_canonical by assumption. reflexivity.
   - (* DelimL *) reflexivity.
+  - (* Sam *) destruct Hok as [[n [Hn Hr]] Hs]. cbn [from_data]. change m_sam_eager_joins_fields with true. cbn iota.
+    unfold sam_from_data.
+    assert (Hhd : length (hd [] rows) = n).
+    { destruct rows as [|r rows]; [congruence|]. apply (Forall_inv Hr). }
+    rewrite Hhd. replace (length rows) with (length (map (map col_text) rows)) by apply map_length.
+    rewrite sam_join_fields_rows.
+    + f_equal. unfold serialise. rewrite map_map. f_equal. apply map_ext_in. intros r Hin.
+      cbn [ser_row]. unfold ser_sam, sam_text_line. rewrite map_col_text; [reflexivity|].
+      unfold cells_small in Hs. rewrite Forall_forall in Hs. apply Hs, Hin.
+    + exact Hn.
+    + apply Forall_forall. intros t Ht. apply in_map_iff in Ht. destruct Ht as [r [<- Hin]].
+      rewrite map_length. rewrite Forall_forall in Hr. apply Hr, Hin.
   - (* Vcf *) destruct Hok as [[n [Hn Hr]] Hs]. cbn [from_data]. rewrite delim_canonical.
     + unfold serialise. rewrite map_map. reflexivity.
     + destruct rows; [congruence|discriminate].
     + exists n. split; [exact Hn|]. apply Forall_forall. intros r' Hr'. apply in_map_iff in Hr'.
       destruct Hr' as [r [<- Hin]]. rewrite vcf_shift_length. rewrite Forall_forall in Hr. apply Hr, Hin.
     + exact Hs.
-  - congruence.
+  - (* VcfU *) destruct Hok as [[n [Hn Hr]] Hs]. cbn [from_data]. change union_info_writable with true. cbn iota.
+    rewrite delim_canonical.
+    + unfold serialise. rewrite map_map. reflexivity.
+    + destruct rows; [congruence|discriminate].
+    + exists n. split; [exact Hn|]. apply Forall_forall. intros r' Hr'. apply in_map_iff in Hr'.
+      destruct Hr' as [r [<- Hin]]. rewrite vcf_shift_length. rewrite Forall_forall in Hr. apply Hr, Hin.
+    + exact Hs.
   - reflexivity.
   - (* Fasta *) destruct Hok as [Hw Hrows]. cbn [from_data].
-    rewrite (fasta_from_data_layout w Hw).
-    + f_equal. unfold serialise. rewrite map_map. f_equal. apply map_ext_in. intros r Hr.
-      rewrite Forall_forall in Hrows. destruct (Hrows r Hr) as [n [s [-> [Hn [Hs _]]]]].
-      unfold fasta_rec. cbn [fst snd ser_row]. rewrite !col_text_print by assumption. reflexivity.
-    + apply Forall_forall. intros e He. apply in_map_iff in He. destruct He as [r [<- Hr]].
-      rewrite Forall_forall in Hrows. destruct (Hrows r Hr) as [n [s [-> [Hn [Hs Hne']]]]].
-      unfold good. cbn [snd]. rewrite col_text_print by assumption. exact Hne'.
+    unfold fasta_from_data. rewrite (fasta_fixed_layout w Hw).
+    f_equal. unfold serialise. rewrite map_map. f_equal. apply map_ext_in. intros r Hr.
+    rewrite Forall_forall in Hrows. destruct (Hrows r Hr) as [n [s [-> [Hn Hs]]]].
+    unfold fasta_rec. cbn [fst snd ser_row]. rewrite !col_text_print by assumption. reflexivity.
   - (* Fastq *) cbn [from_data]. unfold fastq_from_data, fastq_texts, m_fastq_plus, m_fastq_n_lines, m_fastq_offsets, m_fastq_header, m_newline.
     match goal with |- context [scatter _ (columns 4 ?t) _] =>
       replace (length rows) with (length t) by apply map_length end.
@@ -334,4 +350,35 @@ Proof.
   - rewrite parse_serialise_vcf by assumption. reflexivity.
   - change (@nil Z) with (header_of []).
     rewrite (parse_serialise_vcf no_float_value (k_schema c) [] _ ltac:(constructor) Hr). reflexivity.
+Qed.
+
+(* ---------- SAM (in-memory SAMEntry tables; SAMBuffer.from_data = join_fields since /repo 81bde1f) ---------- *)
+Corollary write_pieces_sam gz h :
+  hist_ok Sam h -> tail_appends h -> run_hist Sam [] gz h = (0, serialise Sam (rows_of_hist h)).
+Proof.
+  intros Hh Ht. rewrite write_history_head by auto. unfold spec_file, spec_header.
+  destruct h as [|s t]; [reflexivity|]. destruct (s_append s); [reflexivity|]. destruct (existsb _ _); reflexivity.
+Qed.
+Theorem roundtrip_sam pf ks gz h :
+  ks <> [] -> hist_ok Sam h -> tail_appends h -> Forall (sam_row_ok pf ks) (rows_of_hist h) ->
+  parse_raw_with pf Sam (ks ++ [5]) (snd (run_hist Sam [] gz h)) = Some (rows_of_hist h).
+Proof. intros Hk Hh Ht Hr. rewrite write_pieces_sam by assumption. apply parse_serialise_sam; assumption. Qed.
+
+(* the old eager spelling (TAB before an empty tags cell) of the same table, as the harness writes it into k_alt_file *)
+Definition sam_old_spelling (rows : list row) : list Z := serialise Delim rows.
+Theorem model_ok_spec_ok_sam (c : case) ks :
+  k_fmt c = Sam -> k_header c = [] -> k_schema c = ks ++ [5] -> ks <> [] ->
+  (k_alt_file c = [] \/ k_alt_file c = sam_old_spelling (rows_of_hist (k_hist c))) ->
+  hist_ok Sam (k_hist c) -> tail_appends (k_hist c) ->
+  Forall (sam_row_ok no_float_value ks) (rows_of_hist (k_hist c)) ->
+  forallb float_free_row (rows_of_hist (k_hist c)) = true ->
+  model_ok c = true -> spec_ok c = true.
+Proof.
+  intros Hf Hhd Hs Hk Halt Hh Ht Hr Hff. apply model_ok_spec_ok; rewrite ?Hf, ?Hhd, ?Hs; auto.
+  - rewrite spec_file_headerless. unfold parse_file, parse_raw. apply parse_serialise_sam; assumption.
+  - destruct Halt as [Ha|Ha]; [left; exact Ha|right]. rewrite Ha. unfold parse_file, parse_raw, sam_old_spelling.
+    change (parse_raw_with no_float_value Sam (ks ++ [5]) (serialise Delim (rows_of_hist (k_hist c))))
+      with (parse_raw_with no_float_value Delim (ks ++ [5]) (serialise Delim (rows_of_hist (k_hist c)))).
+    apply parse_serialise_delim_rows.
+    eapply Forall_impl; [|exact Hr]. intros r [fs [e [-> [Hc He]]]]. right. exists ks, fs, e. auto.
 Qed.
